@@ -145,6 +145,23 @@ theorem bridge_handover_spec (evs : List Event) (c : Client) (s : Session)
   rw [hd]
   exact ⟨by omega, by simp⟩
 
+/-- a connector that is still completing its identity (fewer than 32 bytes so far, whatever they are — newlines and
+    command look-alikes included): the chunk is appended to its read buffer, nothing is queued for anybody, nothing
+    else changes (`IdentityHeld`) -/
+theorem identity_held (evs : List Event) (c : Client) (s : Session) (data : Bytes)
+    (hc : (run init evs).get c = some s) (hst : s.state = .awaitingIdentity)
+    (hshort : s.readBuf.length + data.length < EphVerif.Gen.C25.kPeerIdBytes) :
+    step (run init evs) (.recv c data) = (run init evs).put c { s with readBuf := s.readBuf ++ data } ∧
+    IdentityHeld s.readBuf.length data.length (s.readBuf ++ data).length false := by
+  refine ⟨?_, by simp [IdentityHeld]⟩
+  have hnb : s.state ≠ .bridged := by rw [hst]; decide
+  have hlen : (s.readBuf ++ data).length < EphVerif.Gen.C25.kPeerIdBytes := by simpa using hshort
+  simp only [step, hc, hnb, if_false]
+  unfold processProtocol
+  simp [hst]
+  intro h
+  omega
+
 /-- right after the step that establishes its bridge the connector has nothing left in the relay
     (`BridgeDrained`, the clause the monitor checks on the implementation's read-buffer size) -/
 theorem bridge_drained (evs : List Event) (c : Client) (s : Session)
